@@ -509,7 +509,17 @@ def eval_pair_law(c, law, ta, tb):
         for cat in mfl.ALL_CATS:
             A, B, R = mfl.norm(Oa, cat), mfl.norm(Ob, cat), mfl.norm(Or, cat)
             if cat == "covariate" and cov_conflict(A, B):
-                c.hit("not_judged:covariate-optional-conflict")
+                if law == "sub":
+                    # the docs are silent on the FLAG of what remains when optional and forced effects meet; which
+                    # effects remain is not in doubt: those of a that b does not have (covsearch relies on it:
+                    # search space minus the model's own, always structural, effects)
+                    strip = lambda X: {t[:4] for t in X}  # noqa: E731
+                    c.hit("L3_sub_flags_stripped")
+                    if strip(R) != strip(A) - strip(B):
+                        return "viol", (f"effects of a-b (optional flags ignored) = {srt(strip(R))} != effects(a) \\ effects(b) = "
+                                        f"{srt(strip(A) - strip(B))}")
+                else:
+                    c.hit("not_judged:covariate-optional-conflict")
                 continue
             if law == "add":
                 c.hit("L2_add")
